@@ -138,6 +138,31 @@ def rule_guard(ctx):
                        f'{norm(c)[:60]} mutates the task queue with locks {sorted(h)} held; the clock lock is required '
                        f'(helper call sites: {[s[0].qualname for s in sites.get(f.fq, [])]})', c, m)
     ctx.require(n >= 12, 'C08.guard', f'only {n} queue mutation sites found')
+    # the scheduling base time: `main.current_tt` is a process-global that a clock thread swaps to the running routine while it
+    # holds the main lock; a sched() from another thread must therefore read it under that lock (in RT mode), otherwise it can
+    # pick up a routine's (past) logical time and the task wakes before call time + delta
+    k = 0
+    for f in funcs:
+        if f.qualname.split('.')[-1] not in ('sched',) or f.qualname.startswith('Scheduler.'):
+            continue
+        sw = [t for t in f.node.body if isinstance(t, ast.If) and 'NRT_MODE' in norm(t.test) and '.mode' in norm(t.test)]
+        if not sw:
+            continue
+        nrt_nodes = {id(x) for t in sw for b in t.body for x in ast.walk(b)}
+        reads = []
+        for x in ast.walk(f.node):
+            if isinstance(x, ast.Attribute) and x.attr == 'current_tt' and id(x) not in nrt_nodes:
+                reads.append((x, lexical_locks(x, cls_of)))
+            if isinstance(x, ast.Call) and id(x) not in nrt_nodes:
+                for cal in resolve(x, f):
+                    if any(isinstance(y, ast.Attribute) and y.attr == 'current_tt' for y in ast.walk(cal.node)):
+                        reads.append((x, lexical_locks(x, cls_of)))
+        for x, h in reads:
+            k += 1
+            ctx.ob('C08.guard', f'{f.fq}:base-time-read[{norm(x)[:50]}]', main_cls in (h | held[f.fq]),
+                   f'{norm(x)[:60]} reads the calling thread\'s logical time with locks {sorted(h)} held in real-time mode; outside the '
+                   f'main lock another thread sees the routine a clock thread is running, and schedules relative to its past time', x, m)
+    ctx.require(k >= 2, 'C08.guard', f'only {k} base-time reads found in sched()')
     ctx.extra['held_on_entry'] = {k.split(':')[1]: sorted(v) for k, v in held.items() if v}
 
 
@@ -449,6 +474,12 @@ def run(ctx):
 
 
 MUTANTS = [
+    dict(rule='C08.guard', name='sched reads the base time before taking the lock (seed C08-c)', file='sc3/base/clock.py',
+         old="        item._clock = cls\n        if cls.mode == _libsc3.main.NRT_MODE:\n            seconds = _libsc3.main.current_tt._seconds\n            seconds += delta\n            if seconds == float('inf'):\n                return\n            ClockTask(seconds, cls, item, _libsc3.main._clock_scheduler)\n        else:\n            with cls._sched_cond:\n                seconds = _libsc3.main.current_tt._seconds\n                seconds += delta\n                if seconds == float('inf'):\n                    return\n                cls._sched_add(seconds, item)",
+         new="        item._clock = cls\n        seconds = _libsc3.main.current_tt._seconds\n        seconds += delta\n        if seconds == float('inf'):\n            return\n        if cls.mode == _libsc3.main.NRT_MODE:\n            ClockTask(seconds, cls, item, _libsc3.main._clock_scheduler)\n        else:\n            with cls._sched_cond:\n                cls._sched_add(seconds, item)"),
+    dict(rule='C08.guard', name='TempoClock.sched computes the beat outside the lock', file='sc3/base/clock.py',
+         old="            with self._sched_cond:\n                beats = self._calc_sched_beats(delta)\n                if beats == float('inf'):\n                    return\n                self._sched_add(beats, item)",
+         new="            beats = self._calc_sched_beats(delta)\n            if beats == float('inf'):\n                return\n            with self._sched_cond:\n                self._sched_add(beats, item)"),
     dict(rule='C08.guard', name='sched_abs without the lock', file='sc3/base/clock.py',
          old="        else:\n            with cls._sched_cond:\n                cls._sched_add(time, item)", new="        else:\n            cls._sched_add(time, item)"),
     dict(rule='C08.guard', name='AppClock.clear without the lock', file='sc3/base/clock.py',
